@@ -149,7 +149,8 @@ def corpus_cases(ctx, n):
 def run_shard(ctx):
     try:
         from simple_ddl_parser.parser import Parser
-        contracts.post(Parser, "process_statement", _stmt_contract, "statement_buffer")
+        contracts.post(Parser, "process_statement", _stmt_contract, "statement_buffer"
+        " Added after seeded defects: the same table name produced twice with ALTER/INDEX in between, the very same statement text repeated, statements the lexer rejects (known finding unless anything but that exception happens), unterminated ignored lines, stray-semicolon statements.")
     except Exception as e:
         STATE.unattached.append("contract statement_buffer: %r" % (e,))
     rng = ctx.rng
